@@ -45,12 +45,32 @@ template <typename C, typename U> void const_all(const char *id, C c, U u) {
 // "changes only the unit, never the stored number"
 template <typename A> bool bits_eq(A a, A b) { return std::memcmp(&a, &b, sizeof(A) > 10 && std::is_floating_point<A>::value ? 10 : sizeof(A)) == 0; }
 template <typename A, typename B> bool bits_eq(A, B) { return false; }
+// constant / number and constant / quantity exist for floating reps only: the stored number is exactly 1 / x in x's own type
+template <bool Floating> struct ConstOverOps {
+    template <typename C, typename T> static int number(C c, T x) {
+        using U = AssociatedUnitT<C>;
+        auto e = c / x;
+        return !bits_eq(e.in(U{}), T(1) / x) + !std::is_same<typename decltype(e)::Rep, T>::value + !std::is_same<typename decltype(e)::Unit, U>::value;
+    }
+    template <typename C, typename Q> static int quantity(C c, Q q) {
+        using U = AssociatedUnitT<C>; using QU = typename Q::Unit; using R = typename Q::Rep;
+        auto e = c / q;
+        return !bits_eq(e.in(typename decltype(e)::Unit{}), R(1) / q.in(QU{})) + !std::is_same<typename decltype(e)::Rep, R>::value +
+               !are_units_quantity_equivalent(typename decltype(e)::Unit{}, UnitQuotientT<U, QU>{});
+    }
+};
+template <> struct ConstOverOps<false> {
+    template <typename C, typename T> static int number(C, T) { return 0; }
+    template <typename C, typename Q> static int quantity(C, Q) { return 0; }
+};
 template <typename C, typename T> int mixin_number(C c, T x) {
     using U = AssociatedUnitT<C>;
     int bad = 0;
     auto a = x * c; auto b = c * x; auto d = x / c;
     bad += !bits_eq(a.in(U{}), x) + !bits_eq(b.in(U{}), x) + !bits_eq(d.in(UnitInverseT<U>{}), x);
     bad += !std::is_same<typename decltype(a)::Unit, U>::value + !std::is_same<typename decltype(d)::Unit, UnitInverseT<U>>::value;
+    bad += !std::is_same<typename decltype(a)::Rep, T>::value + !std::is_same<typename decltype(b)::Rep, T>::value + !std::is_same<typename decltype(d)::Rep, T>::value;
+    bad += ConstOverOps<std::is_floating_point<T>::value>::number(c, x);
     return bad;
 }
 template <typename C, typename Q> int mixin_quantity(C c, Q q) {
@@ -59,6 +79,9 @@ template <typename C, typename Q> int mixin_quantity(C c, Q q) {
     auto a = q * c; auto b = c * q; auto d = q / c;
     bad += !bits_eq(a.in(typename decltype(a)::Unit{}), q.in(QU{})) + !bits_eq(b.in(typename decltype(b)::Unit{}), q.in(QU{})) + !bits_eq(d.in(typename decltype(d)::Unit{}), q.in(QU{}));
     bad += !are_units_quantity_equivalent(typename decltype(a)::Unit{}, UnitProductT<QU, U>{}) + !are_units_quantity_equivalent(typename decltype(d)::Unit{}, UnitQuotientT<QU, U>{});
+    using R = typename Q::Rep;
+    bad += !std::is_same<typename decltype(a)::Rep, R>::value + !std::is_same<typename decltype(b)::Rep, R>::value + !std::is_same<typename decltype(d)::Rep, R>::value;
+    bad += ConstOverOps<std::is_floating_point<R>::value>::quantity(c, q);
     return bad;
 }
 }  // namespace auv
